@@ -48,10 +48,15 @@ def cases(draw):
     mocks = {}
     for i in sorted(needed):
         t = mod['tasks'][i]
-        how = draw(st.sampled_from(['kind', 'kind', 'falsy']))
-        mocks[str(i)] = {'by': draw(st.sampled_from(['class', 'name'])),
-                         'value': {'kind': t['kind'], 'digest': '%016x' % draw(st.integers(0, 2 ** 63))} if how == 'kind'
-                         else {'raw': draw(st.sampled_from(MOCK_VALUES))}}
+        how = draw(st.sampled_from(['kind', 'kind', 'falsy', 'callable']))
+        if how == 'callable':
+            # a mock value that is itself callable (what a lazily generated result is: a function returning an iterator)
+            val = {'kind': 'callable', 'digest': '%016x' % draw(st.integers(0, 2 ** 63))}
+        elif how == 'kind':
+            val = {'kind': t['kind'], 'digest': '%016x' % draw(st.integers(0, 2 ** 63))}
+        else:
+            val = {'raw': draw(st.sampled_from(MOCK_VALUES))}
+        mocks[str(i)] = {'by': draw(st.sampled_from(['class', 'name'])), 'value': val}
     vals = {}
     for key, plist in gen.param_keys_of_module(mod).items():
         users = [p for p in plist]
@@ -111,6 +116,9 @@ def mock_value(spec, task):
     v = spec['value']
     if 'raw' in v:
         return copy.deepcopy(v['raw'])
+    if v['kind'] == 'callable':
+        d = v['digest']
+        return lambda: iter([d, 'tail'])
     return encode(v['kind'], v['digest'], task)
 
 
@@ -181,6 +189,18 @@ def eval_case(case, rec):
                 raise Violation('helper-value-raised', dict(info, task=slug, error=repr(e)[:300]))
         ran = [e[4] for e in RT.log]
         mocked_slugs = {mod['tasks'][int(k)]['slug'] for k in case['mocks']}
+        if tc is not None:
+            # a mocked task returns THE supplied value (the very object), whatever it is
+            for key, supplied in mocks.items():
+                slug = key if isinstance(key, str) else key.slugname
+                try:
+                    with hyp.quiet_output():
+                        got_mock = tc[slug].value
+                except Exception as e:
+                    raise Violation('mock-value-raised', dict(info, task=slug, error=repr(e)[:200]))
+                if got_mock is not supplied:
+                    raise Violation('mock-does-not-return-the-supplied-value', dict(info, task=slug, got=repr(got_mock)[:100],
+                                                                                   supplied=repr(supplied)[:100]))
         if set(ran) & mocked_slugs:
             raise Violation('mocked-task-was-run', dict(info, ran=ran))
         for slug, want in ref.items():
@@ -216,7 +236,8 @@ def eval_case(case, rec):
             if mdir.exists() and (not mdir.is_dir() or {e.name for e in mdir.iterdir()} - shared):
                 raise Violation('mocked-task-persisted', dict(info, task=ms))
         # the real chain with source tasks in place of the mocks (a real task cannot return None: skipped then)
-        if any('raw' in s_['value'] and s_['value']['raw'] is None for s_ in case['mocks'].values()):
+        if any(('raw' in s_['value'] and s_['value']['raw'] is None) or s_['value'].get('kind') == 'callable'
+               for s_ in case['mocks'].values()):
             rec.case(case, nontrivial=False, classes=['helper:' + case['helper'], 'valid', 'mock-is-None'])
             return
         RT.reset()
